@@ -35,7 +35,7 @@ COMPONENTS = {"real": ["Model.__init__/update/finish", "ladim.main.main (sampled
 ASSUMPTIONS = ["the shims override only methods the base classes have and delegate unchanged"]
 TIERS = {"quick": dict(runs=500, budget_s=50, shrink=100),
          "thorough": dict(runs=50000, budget_s=900, shrink=200)}
-REQUIRED_PROBES = ["cold", "warm", "via_main", "plugin_relative_path", "plugin_module_name", "plugin_same_basename_two_dirs", "ibm_kill_checked",
+REQUIRED_PROBES = ["cold", "warm", "via_main", "plugin_relative_path", "plugin_module_name", "plugin_same_basename_two_dirs", "plugin_dotted_stem", "ibm_kill_checked",
                    "late_release", "scalar_in_record"]
 
 PROFILE = gen.profile(
@@ -53,7 +53,7 @@ def generate(seed: int, tier: str, idx: int) -> dict:
     sc = gen.gen_scenario(seed, PROFILE)
     sc["output"]["layout"] = sc["output"].get("layout", "sparse")
     plan = {"start": s.wpick([("cold", 3), ("warm", 2)]),
-            "plugin": s.pick(["abs", "rel", "rel_py", "name", "twin"]),
+            "plugin": s.pick(["abs", "rel", "rel_py", "name", "twin", "dotted", "dotted_py"]),
             "main": s.chance(0.5)}
     if plan["start"] == "warm":
         sc["output"].pop("layout", None)        # warm start reads the sparse format
@@ -113,7 +113,13 @@ def _install_plugin(d: Path, how: str, twin: bool = False):
             return cfg
 
         return edit_twin
-    if how in ("rel", "rel_py"):
+    if how in ("dotted", "dotted_py"):
+        # the plug-in file has a dot in its stem and an older version lies next to it
+        (d / "plug").mkdir(exist_ok=True)
+        (d / "plug" / "myibm.v2.py").write_text(marked)
+        (d / "plug" / "myibm.py").write_text(marked.replace(f"file:{token}", "sibling"))
+        name = str(d / "plug" / ("myibm.v2.py" if how == "dotted_py" else "myibm.v2"))
+    elif how in ("rel", "rel_py"):
         _decoy()
         (d / "myibm.py").write_text(marked)
         name = "myibm.py" if how == "rel_py" else "myibm"
@@ -286,6 +292,8 @@ def execute(sc) -> Result:
             res.probes["plugin_module_name"] += 1
         if pl["plugin"] == "twin":
             res.probes["plugin_same_basename_two_dirs"] += 1
+        if pl["plugin"].startswith("dotted"):
+            res.probes["plugin_dotted_stem"] += 1
         marks = run.rec.plugin_marks
         want = [f"file:{d.name}"] if pl["plugin"] != "twin" else [f"forcing:{d.name}", f"file:{d.name}"]
         if pl["plugin"] != "name" and marks != want:
